@@ -50,8 +50,22 @@ def check_sampler(ctx: Ctx, case):
     space = gen.make_space(case["space"])
     pts, losses = gen.build_history(space, case["history"])
     hd = case.get("hist_dtype", "float64")
-    if hd != "float64" and len(pts) and np.array_equal(pts.astype(hd).astype(float), pts):
-        pts = pts.astype(hd)      # the same on-grid points, handed over in another array type
+    if hd != "float64" and len(pts):
+        # the same kind of on-grid history, handed over as a float32 / integer array: every coordinate is moved to a grid
+        # element that this type represents exactly (the grid as a whole usually is not representable in it)
+        cols = []
+        for j in range(space.dims):
+            g = space.param_grid[j]
+            with np.errstate(all="ignore"):
+                ok = g[(np.abs(g) < 1e15) & (g.astype(hd).astype(float) == g)]
+            if len(ok) == 0:
+                cols = None
+                break
+            cols.append(ok[np.searchsorted(g, pts[:, j]) % len(ok)])
+        if cols is None:
+            hd = "float64"
+        else:
+            pts = np.stack(cols, axis=1).astype(hd)
     else:
         hd = "float64"
     d = space.dims
